@@ -2,6 +2,7 @@
 import json
 import os
 import random
+import re
 import sys
 
 from . import convert_check as CC
@@ -63,6 +64,22 @@ def build_c18(thorough, rnd):
                 continue
             scs.append(CC._sc(len(scs), ts[j % len(ts)], air, acts))
     return scs
+
+
+def summary_lines(text):
+    """Number of lines of the first paragraph of the (first) docstring in an emitted text."""
+    m = re.search(r'("""|\'\'\')(.*?)(\1)', text, re.S)
+    body = m.group(2) if m else text
+    n = 0
+    for ln in body.strip("\n").splitlines():
+        if not ln.strip():
+            if n:
+                break
+            continue
+        if ln.strip().startswith(":") or ln.strip() in ("Parameters", "Args:", "Returns", "Returns:"):
+            break
+        n += 1
+    return n
 
 
 def ret_wrapped(text):
@@ -229,6 +246,11 @@ def run(prop, propose=False, replay=None):
                 prev_emit = conc[l - 2] if 2 <= l <= len(conc) + 1 and conc[l - 2].get("a") == "emit" else None
                 feat["retwrap"] = bool(prev_emit and ret_wrapped(str(prev_emit.get("text") or "")))
                 feat["brk"] = bool(prev_emit and any(x.rstrip().lower().endswith("defaults") for x in str(prev_emit.get("text") or "").splitlines()))
+            if cl == "TextStable":
+                # is the one-line summary of the description spread over several lines in the text just emitted?
+                conc = (replays.get(tr["id"]) or {}).get("concrete") or []
+                this = conc[l - 1] if 1 <= l <= len(conc) and conc[l - 1].get("a") == "emit" else None
+                feat["sumwrap"] = bool(this and meta["sc"]["air"]["doc"] == "one" and summary_lines(str(this.get("text") or "")) > 1)
             seen.add((l, cl, slot))
             if not bad:
                 if propose:
